@@ -1126,7 +1126,10 @@ IsPadded returns a Boolean value indicative of whether the
 receiver pads its contents with a SPACE char (ASCII #32).
 */
 func (r Condition) IsPadded() (is bool) {
-	return !r.getState(nspad)
+	if r.IsInit() {
+		is = !r.getState(nspad)
+	}
+	return
 }
 
 /*
